@@ -179,8 +179,10 @@ func runSQLReplicaPlan(c *pbt.Case, p SQLReplicaPlan) {
 				c.Label("refused:ioerr")
 			case strings.Contains(msg, "locked"), strings.Contains(msg, "busy"), strings.Contains(msg, "protocol"):
 				c.Label("refused:busy")
+			case strings.Contains(msg, "unable to open database file"): // the journal could not be created
+				c.Label("refused:cantopen")
 			default:
-				c.Labelf("refused:other")
+				c.Labelf("refused:other:%.40s", msg)
 			}
 		}
 		if !bytes.Contains([]byte(after), []byte("pos="+rp.Pos(name).String())) {
